@@ -271,7 +271,7 @@ def float_correspondence(ctx, n):
 def exact_correspondence(ctx, built):
     rng = ctx.rng
     # (a) dispatch
-    seg_cases = [gen_seg_case(rng) for _ in range(ctx.n(400, 6000))]
+    seg_cases = [gen_seg_case(rng) for _ in range(ctx.n(400, 3000))]
     items, kept = [], []
     for c in seg_cases:
         out = impl_seg(c)
@@ -292,15 +292,12 @@ def exact_correspondence(ctx, built):
                 ctx.add_broken("broken-correspondence", "seg_internal model vs BHJM_cylinder_segment_internal",
                                json.dumps({"case": kept[bi][0], "impl": kept[bi][1]}))
     # (b)+(c) meshes
-    mesh_cases = [gen_mesh_case(rng) for _ in range(ctx.n(250, 4000))]
+    mesh_cases = [gen_mesh_case(rng) for _ in range(ctx.n(250, 2000))]
     mitems, titems, mk = [], [], []
     for c in mesh_cases:
         with warnings.catch_warnings():
             warnings.simplefilter("ignore")
             r = impl_mesh(c)
-        if not r["pol_ok"]:
-            ctx.impl_fail("TriangularMesh.to_TriangleCollection/polarization",
-                          "a Triangle of to_TriangleCollection does not carry the mesh polarization", {"kind": "mesh", "case": c})
         mitems.append(c_mesh_case(c, r))
         titems.append(c_tricoll_case(c, r))
         mk.append((c, r))
@@ -321,23 +318,66 @@ def exact_correspondence(ctx, built):
     return mk
 
 
+OBS4 = np.array([[7.3, -5.1, 6.7], [-6.2, 8.9, 5.3], [0.31, 0.17, -9.4], [0.13, -0.29, 0.37]])
+
+
+def build_exact_mesh(c):
+    mesh = np.array(c["mesh"], dtype=float)
+    kw = dict(polarization=(0.3, -0.5, 0.7), position=c["pos"], orientation=octa.rot(c["rot"]), **SKIP)
+    tris = [magpy.misc.Triangle(polarization=(0.3, -0.5, 0.7), vertices=v) for v in mesh]
+    if c["via"] == "from_mesh":
+        m = magpy.magnet.TriangularMesh.from_mesh(mesh=mesh, **kw)
+    else:
+        arg = tris if c["via"] == "from_triangles" else magpy.Collection(tris)
+        m = magpy.magnet.TriangularMesh.from_triangles(triangles=arg, **kw)
+    posed = [magpy.misc.Triangle(polarization=(0.3, -0.5, 0.7), vertices=v, position=c["pos"],
+                                 orientation=octa.rot(c["rot"])) for v in mesh]
+    return m, posed
+
+
+def mesh_field_fails(c):
+    """the property itself on an exact mesh case: H of the constructed mesh = H of the input triangles (same pose)
+    = H of its to_TriangleCollection; returns the list of converters that do not preserve the field"""
+    with warnings.catch_warnings():
+        warnings.simplefilter("ignore")
+        m, posed = build_exact_mesh(c)
+        Hs = [t.getH(OBS4) for t in posed]
+        H0 = np.sum(Hs, axis=0)
+        Hm = m.getH(OBS4)
+        Hc = m.to_TriangleCollection().getH(OBS4)
+    # scale: the single-triangle fields (random integer meshes contain triangles that cancel each other)
+    scale = max(np.sum([np.abs(h).max() for h in Hs]), 1e-30)
+    bad = []
+    if np.abs(Hm - H0).max() > 1e-7 * scale:
+        bad.append(c["via"].replace("_coll", ""))
+    if np.abs(Hc - Hm).max() > 1e-7 * scale:
+        bad.append("to_TriangleCollection")
+    return bad
+
+
 def mesh_oracle(ctx, mk):
-    """the property itself on the exact mesh cases: vertices[faces] is the input mesh, one Triangle per face with
-    the mesh pose (python re-statement of C13_mesh_roundtrip / C13_to_TriangleCollection on the implementation)"""
+    """on the exact mesh cases: where the structural statement of the theorems (vertices[faces] = input mesh, one
+    Triangle per face with the mesh pose) does not hold on the implementation, decide by the FIELD whether the
+    property is violated (a reordering that preserves the field is not a violation)"""
     for c, r in mk:
-        if r["mesh_out"] != c["mesh"]:
-            ctx.impl_fail(f"TriangularMesh.{c['via'].replace('_coll', '')}/mesh-roundtrip",
-                          "vertices[faces] differs from the input mesh", {"kind": "mesh", "case": c})
         exp = [[t, c["pos"], c["rot"]] for t in r["mesh_out"]]
-        if r["children"] != exp or r["cpos"] != c["pos"] or r["cori"] != c["rot"]:
-            ctx.impl_fail("TriangularMesh.to_TriangleCollection/pose",
-                          "to_TriangleCollection does not yield one Triangle per face with the mesh pose",
+        structural = r["mesh_out"] == c["mesh"] and r["children"] == exp and r["cpos"] == c["pos"] and r["cori"] == c["rot"] \
+            and r["pol_ok"]
+        if structural and ctx.counts.get("mesh_field_checks", 0) >= 40:
+            continue
+        ctx.count("mesh_field_checks")
+        for conv in mesh_field_fails(c):
+            ctx.impl_fail(f"TriangularMesh.{conv}/H:exact-mesh",
+                          f"{conv} does not preserve the H-field of the input triangles (integer mesh, checks skipped)",
                           {"kind": "mesh", "case": c})
 
 
 # ------------------------------------------------------------------ search
 QUICK_N = {"cuboid_partition": 150, "cylinder_partition": 110, "cuboid_repr": 150, "sphere_dipole": 60,
            "polyline_circle": 40, "mesh_convert": 100, "mixed_partition": 100}
+
+
+THOROUGH_FACTOR = 12
 
 
 def load_corpus():
@@ -354,9 +394,10 @@ def search(ctx, factor):
         for c in load_corpus():
             check_case(ctx, c, "corpus")
         for fam, gen in S.FAMILIES.items():
-            n = int(QUICK_N[fam] * (1 if ctx.tier == "quick" else 25) * factor)
+            n = int(QUICK_N[fam] * (1 if ctx.tier == "quick" else THOROUGH_FACTOR) * factor)
             for _ in range(n):
                 check_case(ctx, gen(ctx.rng), "random")
+            ctx.log(f"search {fam}: {n} cases")
 
 
 def check_case(ctx, c, origin):
@@ -410,11 +451,14 @@ def run(ctx):
         ctx.coqchk("MV.Props.C13")
     ctx.partial += [t for t in ctx.theorems if t.endswith("_partial")]
     mk = run_guarded(ctx, lambda: exact_correspondence(ctx, built), "C13 exact correspondence") or []
+    ctx.log(f"exact correspondence done ({ctx.counts['traces_validated_against_impl']} cases agree)")
     if built:
-        run_guarded(ctx, lambda: float_correspondence(ctx, ctx.n(240, 2400)), "C13 float correspondence")
+        run_guarded(ctx, lambda: float_correspondence(ctx, ctx.n(240, 1200)), "C13 float correspondence")
+        ctx.log("float correspondence done")
     run_guarded(ctx, lambda: mesh_oracle(ctx, mk), "C13 mesh oracle")
     big = bool(ctx.broken)
     run_guarded(ctx, lambda: search(ctx, 5 if big else 1), "C13 search")
+    ctx.log(f"search done ({ctx.counts['evaluations']} evaluations in total)")
     ctx.extra.pop("_c13_seen", None)
 
 
@@ -432,16 +476,10 @@ def replay(ctx, obj):
         print(f"VIOLATION property=C13 replay={obj.get('how_to_rerun', '').split()[-1] or 'given'}")
         return 1
     if rp.get("kind") == "mesh":
-        with warnings.catch_warnings():
-            warnings.simplefilter("ignore")
-            r = impl_mesh(rp["case"])
-        c = rp["case"]
-        exp = [[t, c["pos"], c["rot"]] for t in r["mesh_out"]]
-        ok = r["mesh_out"] == c["mesh"] and r["children"] == exp and r["cpos"] == c["pos"] and r["cori"] == c["rot"] \
-            and r["pol_ok"]
-        print("replay:", "property holds on this mesh" if ok else "FAILS: mesh roundtrip / to_TriangleCollection pose")
-        if not ok:
+        bad = mesh_field_fails(rp["case"])
+        print("replay:", "property holds on this mesh" if not bad else f"FAILS: field not preserved by {bad}")
+        if bad:
             print(f"VIOLATION property=C13 replay={obj.get('how_to_rerun', '').split()[-1] or 'given'}")
-        return 0 if ok else 1
+        return 1 if bad else 0
     print(json.dumps(obj, indent=1)[:3000])
     return 0
